@@ -11,11 +11,16 @@ ids = args or ["C%02d" % i for i in range(1, 19)]
 EXTRA = {"C06-m2": ["C15"], "C12-m1": ["C01", "C15"], "C13-m1": ["C01", "C15"], "C16-m2": ["C10", "C01"], "C10-m3": ["C16"], "C11-m3": ["C15"],
          "C15-m1": ["C17", "C02"], "C15-m3": ["C01"], "C16-m1": ["C15", "C17"], "C17-m1": ["C15"], "C03-m2": ["C10"], "C10-m2": ["C03"], "C12-m3": ["C03"],
          "C14-m2": ["C05"], "C14-m3": ["C09"], "C05-m1": ["C14"], "C07-m3": ["C14"], "C02-m3": ["C15"], "C04-m3": ["C15"], "C08-m3": ["C15"], "C07-m2": ["C15"], "C01-m2": ["C15"]}
+EXTRA.update({"C02-r2-m2": ["C16"], "C04-r2-m2": ["C16"], "C05-r2-m3": ["C16"], "C07-r2-m2": ["C16"], "C09-r2-m3": ["C16"], "C12-r2-m3": ["C16"], "C17-r2-m1": ["C16"],
+  "C14-r2-m3": ["C16"], "C18-r2-m3": ["C16"], "C10-r2-m3": ["C16"], "C03-r2-m2": ["C16"], "C06-r2-m1": ["C15", "C11"], "C11-r2-m3": ["C07"], "C01-r2-m1": ["C13", "C15"],
+  "C13-r2-m2": ["C01", "C15"], "C15-r2-m3": ["C01", "C13"], "C14-r2-m2": ["C07"], "C12-r2-m1": ["C03", "C01"], "C12-r2-m2": ["C03", "C10"], "C01-r2-m2": ["C15"], "C02-r2-m1": ["C15"],
+  "C08-r2-m1": ["C15"], "C06-r2-m2": ["C15"], "C05-r2-m2": ["C15"], "C15-r2-m1": ["C04", "C12"], "C16-r2-m2": ["C01", "C10"], "C16-r2-m3": ["C04"], "C16-r2-m1": ["C03"]})
+
 def one(path):
     cid = path.split("/")[3]
     name = "%s-%s%s" % (cid, os.environ.get("ROUND", ""), os.path.basename(path))
     props = [cid] + EXTRA.get(name, [])
-    r = subprocess.run(["/verif/tools/evalmutant.sh", path, tier] + props, capture_output=True, text=True)
+    r = subprocess.run(["/verif/tools/evalmutant.sh", path, tier] + props, capture_output=True, text=True, errors="replace")
     out = r.stdout
     res = dict(name=name, out=out)
     ok = "demo-clean: PASS" in out and "demo-mutant: FAIL" in out and "suite: PASS" in out
